@@ -13,6 +13,10 @@ import (
 	"pgregory.net/rapid"
 )
 
+// ErrPostForkShare: after the KawPoW fork a workshare needs an AuxPoW; the simulator's share miner
+// only produces the pre-fork kind.
+var ErrPostForkShare = errors.New("workshare: post-fork shares are not mined by the simulator")
+
 // MineWorkShare builds a pending header on heads, grinds a nonce whose seal misses the block
 // target but meets the workshare threshold (2^WorkSharesThresholdDiff times easier), and hands
 // the sealed header to the zone worker the way the p2p layer does (Core.SendWorkShare). The
@@ -24,6 +28,9 @@ func (n *Net) MineWorkShare(heads Heads, o MineOpts) (*types.WorkObjectHeader, e
 		return nil, err
 	}
 	woh := ph.WorkObjectHeader()
+	if woh.PrimeTerminusNumber().Uint64() >= params.KawPowForkBlock {
+		return nil, ErrPostForkShare
+	}
 	target := new(big.Int).Div(common.Big2e256, woh.Difficulty())
 	shareTarget := new(big.Int).Lsh(target, uint(params.WorkSharesThresholdDiff))
 	zone := n.Nodes[Zone]
@@ -75,6 +82,10 @@ func (a *Actor) WorkShare(t *rapid.T) (*types.WorkObjectHeader, error) {
 		a.label("workshare_stale")
 	}
 	ws, err := a.Net.MineWorkShare(heads, o)
+	if errors.Is(err, ErrPostForkShare) {
+		a.label("workshare_skipped_postfork")
+		return nil, nil
+	}
 	if err != nil {
 		return nil, err
 	}
